@@ -16,7 +16,7 @@ from ..core import rule, AnalysisError
 from ..engine import rx, flow, cfg as cfgmod
 from ..engine import pattern as P
 from ..engine.facts import dotted, const, src, walk_func, str_value, enclosing_stmt, ancestors
-from .common import calls, in_try_handling, contains, stmt_nodes, pn, access_paths
+from .common import calls, in_try_handling, contains, stmt_nodes, pn, access_paths, assigned_from
 
 
 def _precedence(e):
@@ -202,7 +202,7 @@ def render_encoding(ctx):
     e = [c for c in ast.walk(ast.Module(body=i.orelse, type_ignores=[])) if isinstance(c, ast.Call) and (dotted(c.func) or "").endswith("FastEncodingBuffer")]
     ctx.check(bool(t) and not t[0].args and not t[0].keywords, "unicode-buffer", db.where(i), "render_unicode's buffer is given an encoding", "unencoded buffer for render_unicode")
     kw = {k.arg: src(k.value) for k in (e[0].keywords if e else [])}
-    ctx.check(kw == {"encoding": "template.output_encoding", "errors": "template.encoding_errors"}, "encoded-buffer", db.where(i), "render's buffer built with %s" % kw, "encoding=output_encoding, errors=encoding_errors")
+    ctx.check(kw == {"encoding": pn(rn, 0) + ".output_encoding", "errors": pn(rn, 0) + ".encoding_errors"}, "encoded-buffer", db.where(i), "render's buffer built with %s" % kw, "encoding=output_encoding, errors=encoding_errors")
     gv = db.func("util.FastEncodingBuffer.getvalue")
     gi = [x for x in gv.body if isinstance(x, ast.If)]
     ok = bool(gi) and src(gi[0].test) == "self.encoding" and ".encode(self.encoding, self.errors)" in src(gi[0].body[0]) and "encode" not in src(ast.Module(body=gi[0].orelse, type_ignores=[]))
@@ -214,7 +214,8 @@ def render_encoding(ctx):
     c = calls(r, "runtime._render")
     ctx.check(bool(c) and not c[0].keywords, "render", db.where(r), "render() passes %s" % [k.arg for k in c[0].keywords] if c else "no call", "render() uses the template's output_encoding")
     ret = [x for x in walk_func(rn) if isinstance(x, ast.Return)]
-    ctx.check(bool(ret) and src(ret[0].value) == "context._pop_buffer().getvalue()", "returns-getvalue", db.where(rn), "_render returns %s" % (src(ret[0].value) if ret else None), "returns the outermost buffer's value")
+    cvs = assigned_from(rn, "Context(...)")
+    ctx.check(bool(ret) and src(ret[0].value) in {c_ + "._pop_buffer().getvalue()" for c_ in cvs}, "returns-getvalue", db.where(rn), "_render returns %s" % (src(ret[0].value) if ret else None), "returns the outermost buffer's value")
     # consumers inside the package: cmd.py
     cm = db.func("cmd.cmdline")
     rr = flow.Reaching(cm)
